@@ -10,13 +10,17 @@ ENV = ["src/crypto/bign/bign_sign.c", "src/crypto/bign/bign_misc.c", "src/crypto
 STRIP = {"bign/bign_lcl.c": ["bignStart", "bignStart_keep"], "zz/zz_mul.c": ["zzMul", "zzMod"], "math/ec.c": ["!_deep$|^ecNAFWidth$"],
          "math/ecp.c": ["!^ecpIsOnA_deep$"], "belt/belt_compr.c": ["!_deep$"], "belt/belt_wbl.c": ["!_keep$"], "belt/belt_hash.c": ["beltHash_keep", "beltHashStart", "beltHashStepH", "beltHashStepG", "beltHashStepG2", "beltHashStepV", "beltHashStepV2"]}
 GROUPS = []
-FN = dict(sign="bignSign", verify="bignVerify", keypairgen="bignKeypairGen", keypairval="bignKeypairVal", pubkeyval="bignPubkeyVal", pubkeycalc="bignPubkeyCalc", dh="bignDH", sign2="bignSign2", idsign2="bignIdSign2")
+FN = dict(sign="bignSign", verify="bignVerify", keypairgen="bignKeypairGen", keypairval="bignKeypairVal", pubkeyval="bignPubkeyVal", pubkeycalc="bignPubkeyCalc", dh="bignDH", sign2="bignSign2", idsign2="bignIdSign2", idsign="bignIdSign", idextract="bignIdExtract")
 for l in (128, 192, 256):
-    for f in ("sign", "verify", "keypairgen", "keypairval", "pubkeyval", "pubkeycalc", "dh", "sign2", "idsign2"):
-        GROUPS.append(G("flow.%s.l%d" % (f, l), "harness/C02/flow.c", "h_" + f, ENV, defs=["L=%d" % l], stubs=["stubs/bign_env.c"], strip=STRIP,
-                        level="B", bound="security level l = %d (operand size fixed, contents symbolic); callees below the function replaced by their contracts" % l,
-                        unwind=max(70, l // 2 + 8), unwindset=["bignSign2.0:4", "bignIdSign2.0:4"], native=False, timeout=1500, fn=[FN[f]], tier="thorough" if ((f == "dh" and l == 256) or f in ("sign2", "idsign2")) else "quick", required=not ((f == "dh" and l == 256) or f in ("sign2", "idsign2")),
-                        note="attempted: no answer from SAT in 700 s at l = 128 (forked hash state + belt-wbl chain); the contract text is in harness/C02/flow.c check_sign2" if f in ("sign2", "idsign2") else ""))
+    for f in ("sign", "verify", "keypairgen", "keypairval", "pubkeyval", "pubkeycalc", "dh", "sign2", "idsign2", "idsign", "idextract"):
+        slow = (f == "dh" and l == 256) or (f in ("sign2", "idsign2") and l != 128)
+        for tv in ((0, 1) if f in ("sign2", "idsign2") else (None,)):
+            GROUPS.append(G("flow.%s.l%d%s" % (f, l, "" if tv is None else ".t%d" % tv), "harness/C02/flow.c", "h_" + f, ENV,
+                            defs=["L=%d" % l] + ([] if tv is None else ["HAVE_T=%d" % tv]), stubs=["stubs/bign_env.c"], strip=STRIP,
+                            level="B", bound="security level l = %d (operand size fixed, contents symbolic); callees below the function replaced by their contracts%s"
+                                  % (l, "; at most three belt-wbl rounds; additional data t %s" % ("present" if tv else "absent") if tv is not None else ""),
+                            unwind=max(70, l // 2 + 8), unwindset=["bignSign2.0:4", "bignIdSign2.0:4"], native=False, timeout=1800, fn=[FN[f]],
+                            tier="thorough" if slow else "quick", required=not slow))
 ALLSRC = ["src/crypto/bign/bign_sign.c", "src/crypto/bign/bign_misc.c", "src/crypto/bign/bign_keyt.c", "src/crypto/bign/bign_ibs.c",
           "src/crypto/bign/bign_lcl.c", "src/crypto/bign/bign_params.c"]
 GROUPS.append(G("roundtrip.search", "harness/C02/roundtrip.c", "h_roundtrip", ALLSRC, level="N", backend="native", search=400, timeout=1800,
@@ -33,4 +37,4 @@ ASSUMPTIONS = ["assumed contracts of the replaced callees (stubs/bign_env.c): bi
                "security level / operand size concrete per group; deterministic-signing model: at most three belt-wbl rounds"]
 TRUSTED = ["stubs/bign_env.c", "harness/ref.h"]
 NOT_COVERED = ["the algebra below the stubs: group law, field arithmetic, belt-hash, belt-wbl / KWP (C05, C01 and C06 territory)",
-               "bignSign2 / bignIdSign2 flow contract: written, no solver answer (attempted only); bignKeyWrap / bignKeyUnwrap / bignIdExtract / bignIdSign / bignIdVerify: native search only"]
+               "bignKeyWrap / bignKeyUnwrap / bignIdVerify: native search only"]
